@@ -561,7 +561,7 @@ func c11PerTableState(c *Ctx) {
 		// nothing else is called before it
 		before := false
 		for k, in := range g.Ins {
-			if _, isCall := in.(*ssa.Call); isCall && k != n && g.Reach(g.Succ[k], nil, nil)[n] {
+			if _, isCall := in.(*ssa.Call); isCall && k != n && m.helperOf(in) == nil && g.Reach(g.Succ[k], nil, nil)[n] {
 				before = true
 			}
 		}
